@@ -210,23 +210,25 @@ func (d *Device) releaseHeldAxisAction(identifier string, next config.Action) {
 	d.releaseAxisAction(held)
 }
 
-func (d *Device) checkDoubleActions() bool {
-	if len(d.actionTracker) > 1 {
-		switch {
-		case d.actionTracker[config.MappingUp] && d.actionTracker[config.MappingDown]:
-			d.MappingReset()
-		case d.actionTracker[config.OctaveUp] && d.actionTracker[config.OctaveDown]:
-			d.OctaveReset()
-		case d.actionTracker[config.SemitoneUp] && d.actionTracker[config.SemitoneDown]:
-			d.SemitoneReset()
-		case d.actionTracker[config.ChannelUp] && d.actionTracker[config.ChannelDown]:
-			d.ChannelReset()
-		default:
-			return false
-		}
-		return true
+// checkDoubleActions resets a parameter when the action being pressed completes its up/down pair;
+// any other action (panic above all) is carried out also while some pair is held
+func (d *Device) checkDoubleActions(pressed config.Action) bool {
+	completes := func(up, down config.Action) bool {
+		return (pressed == up || pressed == down) && d.actionTracker[up] && d.actionTracker[down]
 	}
-	return false
+	switch {
+	case completes(config.MappingUp, config.MappingDown):
+		d.MappingReset()
+	case completes(config.OctaveUp, config.OctaveDown):
+		d.OctaveReset()
+	case completes(config.SemitoneUp, config.SemitoneDown):
+		d.SemitoneReset()
+	case completes(config.ChannelUp, config.ChannelDown):
+		d.ChannelReset()
+	default:
+		return false
+	}
+	return true
 }
 
 func (d *Device) NoteOn(ev *input.InputEvent) {
